@@ -25,6 +25,7 @@ type TokenBucketRateLimiter struct {
 type bucket struct {
 	tokens     int
 	lastRefill time.Time
+	dead       bool       // removed from the map by cleanup; a caller still holding it must look the client up again
 	mutex      sync.Mutex // Only lock when modifying tokens
 }
 
@@ -45,21 +46,28 @@ func NewTokenBucketRateLimiter(maxTokens int, refillRate time.Duration) *TokenBu
 
 // Allow checks if a request from the given client IP is allowed with optimized locking
 func (rl *TokenBucketRateLimiter) Allow(clientIP string) bool {
-	b := rl.getOrCreateBucket(clientIP)
+	for {
+		b := rl.getOrCreateBucket(clientIP)
 
-	vgate("rl:lock")
-	b.mutex.Lock()
-	defer b.mutex.Unlock()
+		vgate("rl:lock")
+		b.mutex.Lock()
+		if b.dead {
+			// cleanup dropped this bucket after we looked it up: spending from
+			// it would be on top of the fresh bucket the next lookup creates
+			b.mutex.Unlock()
+			continue
+		}
 
-	rl.refillTokens(b)
+		rl.refillTokens(b)
 
-	// Check if we have tokens available
-	if b.tokens > 0 {
-		b.tokens--
-		return true
+		// Check if we have tokens available
+		allowed := b.tokens > 0
+		if allowed {
+			b.tokens--
+		}
+		b.mutex.Unlock()
+		return allowed
 	}
-
-	return false
 }
 
 // getOrCreateBucket retrieves or creates a bucket for the client IP
@@ -122,14 +130,15 @@ func (rl *TokenBucketRateLimiter) cleanup() {
 		ip := key.(string)
 		b := value.(*bucket)
 
+		// Decide and remove under the bucket's lock, so that a request cannot
+		// use the bucket between the decision and the removal
 		vgate("rl:clean")
 		b.mutex.Lock()
-		shouldDelete := b.lastRefill.Before(cutoff)
-		b.mutex.Unlock()
-
-		if shouldDelete {
+		if b.lastRefill.Before(cutoff) {
 			rl.buckets.Delete(ip)
+			b.dead = true
 		}
+		b.mutex.Unlock()
 		return true // continue iteration
 	})
 }
